@@ -23,7 +23,9 @@
    The target queue is an executor with a FIFO list drained by Workers (one at a time when TargetSerial, i.e. a
    serial queue; concurrently for a global queue); the manager is a serial executor ("mgr") that also
    delivers kernel events; the kernel is: a registration (epoll entry) that fires only while it exists
-   and is armed.  Not modelled: registration handlers, items submitted to the source itself,
+   and is armed.  The registration handler (client code that may merge data into / cancel its own source)
+   is called out once on the target queue after installation and before the first event delivery; the
+   flags used by the delivery gate are loaded AFTER that callout.  Not modelled: items submitted to the source itself,
    dispatch_source_set_timer after activation (dt_pending_config), retargeting, DQF_RELEASED (last
    release without cancel), QoS/overrides, the +2 reference ledger (C17), registration failure.
    DSF_NEEDS_EVENT (deferred deletion through a kernel EV_DELETE) cannot be produced on this backend:
@@ -37,6 +39,9 @@ CONSTANTS Kind,               \* "data" | "timer" | "fd" | "signal"
           TargetSerial,       \* TRUE: serial target queue; FALSE: global concurrent queue
           Workers,            \* threads that drain the target queue
           HasCancelHandler,   \* a cancel handler is set (then cancel_and_wait is illegal)
+          HasRegHandler,      \* a registration handler is set
+          RegCancels,         \* ... which may call dispatch_source_cancel on its own source
+          RegMerges,          \* ... which may call dispatch_source_merge_data (data sources)
           HandlerCancels,     \* the event handler may call dispatch_source_cancel on itself
           AllowCitem,         \* a work item on the target queue may call dispatch_source_cancel
           MaxForeign,         \* number of dispatch_source_cancel calls from the foreign thread
@@ -87,12 +92,12 @@ vars == <<src, lane, exe, kern, pc, lv, cli, gh>>
 
 L0 == [onq |-> "none", dqf |-> {}, ret |-> "none", retq |-> "none", avoid |-> FALSE,
        wkf |-> {}, wdqf |-> {}, wdu |-> DU0, wktq |-> "none", wkret |-> "idle",
-       ctx |-> "none", ccont |-> "idle", ucont |-> "idle", tcont |-> "idle", acont |-> "idle", mcont |-> "idle",
+       ctx |-> "none", ccont |-> "idle", ucont |-> "idle", tcont |-> "idle", acont |-> "idle", mcont |-> "idle", dcont |-> "idle",
        prev |-> 0, old |-> {}]
 
 Init ==
     /\ src = [dqf |-> {}, du |-> DU0, installed |-> FALSE, pending |-> 0,
-              hnd |-> [ev |-> TRUE, cancel |-> HasCancelHandler]]
+              hnd |-> [ev |-> TRUE, cancel |-> HasCancelHandler, reg |-> HasRegHandler]]
     /\ lane = [lock |-> NULL, dirty |-> FALSE, enq |-> "none", inactive |-> TRUE, activating |-> FALSE, susp |-> 0]
     /\ exe = [mgrList |-> FALSE, tqList |-> <<>>, tqOwner |-> NULL]
     /\ kern = [reg |-> FALSE, armed |-> FALSE, mux |-> FALSE, readable |-> FALSE, hup |-> FALSE, sig |-> FALSE]
@@ -101,7 +106,7 @@ Init ==
     /\ cli = [did |-> {}, ev |-> 0, fcancels |-> 0]
     /\ gh = [hRunning |-> 0, hStarts |-> 0, ownCancel |-> FALSE, foreignOr |-> FALSE, lateStarts |-> 0,
              chStarts |-> 0, chEnds |-> 0, cawRet |-> FALSE, startsAfterCaw |-> 0, runningAtCawRet |-> FALSE,
-             bad |-> ""]
+             regStarts |-> 0, regRunning |-> 0, bad |-> ""]
 
 Suspended == lane.inactive \/ lane.activating \/ lane.susp > 0     \* DISPATCH_QUEUE_IS_SUSPENDED
 Go(t, l) == pc' = [pc EXCEPT ![t] = l]
@@ -121,13 +126,14 @@ WkRead1(t) == /\ pc[t] = "wk_r1"
 \* the chain of tests (same order as in _dispatch_source_invoke2)
 WakeTarget(f, d, flags) ==
     IF ~src.installed THEN DKQ
+    ELSE IF src.hnd.reg THEN "tq"                                    \* the registration handler needs to be delivered
     ELSE IF d.ndel THEN "tq"
     ELSE IF "CANCELED" \notin f /\ src.pending # 0 THEN "tq"
     ELSE IF "CANCELED" \in f /\ "DELETED" \notin f THEN
          (IF IsTimer /\ ~src.du.armed THEN "tq"                       \* timers can cheat if not armed
           ELSE IF "NEEDS_EVENT" \in f /\ "event" \notin flags THEN "none"
           ELSE DKQ)
-    ELSE IF "CANCELED" \in f /\ "DELETED" \in f /\ (src.hnd.ev \/ src.hnd.cancel) THEN "tq"
+    ELSE IF "CANCELED" \in f /\ "DELETED" \in f /\ (src.hnd.ev \/ src.hnd.cancel \/ src.hnd.reg) THEN "tq"
     ELSE IF "CANCELED" \notin f /\ DuNeedsRearm(src.du) THEN DKQ
     ELSE "none"
 WkRead2(t) == /\ pc[t] = "wk_r2"
@@ -190,7 +196,7 @@ COr(t) ==
     /\ pc[t] = "c_or"
     /\ src' = [src EXCEPT !.dqf = FCancelOr(@)]
     /\ gh' = [gh EXCEPT !.foreignOr = @ \/ lv[t].ctx \in {"foreign", "tqitem"},
-                        !.ownCancel = @ \/ lv[t].ctx = "handler" \/ (lv[t].ctx = "tqitem" /\ TargetSerial)]
+                        !.ownCancel = @ \/ lv[t].ctx \in {"handler", "reghandler"} \/ (lv[t].ctx = "tqitem" /\ TargetSerial)]
     /\ IF "CANCELED" \in src.dqf THEN Go(t, lv[t].ccont) /\ lv' = lv
        ELSE Wake(t, {"dirty"}, lv[t].ccont)
     /\ UNCHANGED <<lane, exe, kern, cli>>
@@ -258,14 +264,53 @@ IInstall(t) ==
     /\ Go(t, "i_susp")
     /\ UNCHANGED <<lane, exe, lv, cli, gh>>
 \* if (DISPATCH_QUEUE_IS_SUSPENDED(ds)) return ds->do_targetq
+\* (Mut "stale_flags_after_registration": the flags load is hoisted to here, before the registration callout)
 ISusp(t) == /\ pc[t] = "i_susp"
-            /\ IF Suspended THEN Ret(t, "tq") ELSE Go(t, "i_ndel") /\ lv' = lv
+            /\ IF Suspended THEN Ret(t, "tq")
+               ELSE Set(t, "i_regh", [lv[t] EXCEPT !.dqf = IF Mut = "stale_flags_after_registration" THEN src.dqf ELSE @])
             /\ UNCHANGED <<src, lane, exe, kern, cli, gh>>
+\* if (_dispatch_source_get_registration_handler(dr)) { if (dq != target) return target; registration_callout }
+IRegh(t) == /\ pc[t] = "i_regh"
+            /\ IF ~src.hnd.reg THEN Go(t, "i_ndel") /\ lv' = lv
+               ELSE IF lv[t].onq # "tq" THEN Ret(t, "tq")
+               ELSE Go(t, "r_take") /\ lv' = lv
+            /\ UNCHANGED <<src, lane, exe, kern, cli, gh>>
+\* _dispatch_source_registration_callout: take the handler; no callout if (plain read) CANCELED
+RTake(t) == /\ pc[t] = "r_take"
+            /\ src' = [src EXCEPT !.hnd = [@ EXCEPT !.reg = FALSE]]
+            /\ Go(t, IF "CANCELED" \in src.dqf THEN "i_ndel" ELSE "r_start")
+            /\ UNCHANGED <<lane, exe, kern, lv, cli, gh>>
+RStart(t) ==
+    /\ pc[t] = "r_start"
+    /\ gh' = [gh EXCEPT !.regStarts = IF @ < 2 THEN @ + 1 ELSE @, !.regRunning = 1,
+                        !.bad = IF @ # "" THEN @
+                                ELSE IF gh.regStarts >= 1 THEN "registration_handler_invoked_twice"
+                                ELSE IF gh.hStarts > 0 \/ gh.hRunning > 0 THEN "registration_handler_after_event_delivery"
+                                ELSE IF gh.chStarts > 0 THEN "registration_handler_after_cancel_handler"
+                                ELSE IF lv[t].onq # "tq" THEN "registration_handler_not_on_target_queue"
+                                ELSE ""]
+    /\ Go(t, "r_body")
+    /\ UNCHANGED <<src, lane, exe, kern, lv, cli>>
+\* client code: may merge data into its own source, may cancel it (own context), in any order, each once
+RBody(t) ==
+    /\ pc[t] = "r_body"
+    /\ \/ /\ RegMerges /\ Kind = "data" /\ "rmerge" \notin cli.did
+          /\ cli' = [cli EXCEPT !.did = @ \cup {"rmerge"}]
+          /\ IF "CANCELED" \in src.dqf THEN UNCHANGED <<pc, lv>>
+             ELSE Set(t, "md_add", [lv[t] EXCEPT !.dcont = "r_body"])
+       \/ /\ RegCancels /\ "rcancel" \notin cli.did
+          /\ cli' = [cli EXCEPT !.did = @ \cup {"rcancel"}]
+          /\ Set(t, "c_or", [lv[t] EXCEPT !.ctx = "reghandler", !.ccont = "r_body"])
+       \/ /\ Go(t, "r_end") /\ lv' = lv /\ cli' = cli
+    /\ UNCHANGED <<src, lane, exe, kern, gh>>
+REnd(t) == /\ pc[t] = "r_end" /\ gh' = [gh EXCEPT !.regRunning = 0] /\ Go(t, "i_ndel")
+           /\ UNCHANGED <<src, lane, exe, kern, lv, cli>>
 \* if (_dispatch_unote_needs_delete(dr)) _dispatch_source_refs_unregister(ds, DELETE_ACK | MUST_SUCCEED)
 INdel(t) == /\ pc[t] = "i_ndel"
-            /\ IF src.du.ndel THEN Set(t, "u_unreg", [lv[t] EXCEPT !.ucont = "i_dqf"]) ELSE Go(t, "i_dqf") /\ lv' = lv
+            /\ IF src.du.ndel THEN Set(t, "u_unreg", [lv[t] EXCEPT !.ucont = "i_dqf"])
+               ELSE Go(t, IF Mut = "stale_flags_after_registration" THEN "i_pend" ELSE "i_dqf") /\ lv' = lv
             /\ UNCHANGED <<src, lane, exe, kern, cli, gh>>
-\* dqf = _dispatch_queue_atomic_flags(ds)
+\* dqf = _dispatch_queue_atomic_flags(ds)      (after the registration callout: the delivery gate must see its cancel)
 IDqf(t) == /\ pc[t] = "i_dqf" /\ Set(t, "i_pend", [lv[t] EXCEPT !.dqf = src.dqf])
            /\ UNCHANGED <<src, lane, exe, kern, cli, gh>>
 \* if (!(dqf & CANCELED) && ds_pending_data) { if (dq == target) latch_and_call else return target }
@@ -293,6 +338,7 @@ HStart(t) ==
                   ELSE IF gh.foreignOr /\ gh.lateStarts >= 1 THEN "second_handler_start_after_foreign_cancel"
                   ELSE IF gh.chStarts > 0 THEN "handler_started_after_cancel_handler"
                   ELSE IF gh.hRunning > 0 THEN "handler_reentered"
+                  ELSE IF gh.regRunning > 0 THEN "handler_during_registration_handler"
                   ELSE IF lv[t].onq # "tq" THEN "handler_not_on_target_queue"
                   ELSE ""]
     /\ Go(t, "h_body")
@@ -338,7 +384,7 @@ CalloutCond(f) == "CANCELED" \in f /\ ("DELETED" \in f \/ Mut = "callout_before_
 ICallout(t) ==
     /\ pc[t] = "i_callout"
     /\ IF CalloutCond(lv[t].dqf)
-       THEN IF lv[t].onq # "tq" /\ (src.hnd.ev \/ src.hnd.cancel) /\ Mut # "callout_on_mgr"
+       THEN IF lv[t].onq # "tq" /\ (src.hnd.ev \/ src.hnd.cancel \/ src.hnd.reg) /\ Mut # "callout_on_mgr"
             THEN Set(t, "i_rearm", [lv[t] EXCEPT !.retq = "tq", !.avoid = FALSE])
             ELSE Set(t, "cc_take", [lv[t] EXCEPT !.avoid = FALSE, !.tcont = "cc_done"])
        ELSE Go(t, "i_rearm") /\ lv' = lv
@@ -346,7 +392,7 @@ ICallout(t) ==
 \* _dispatch_source_cancel_callout: take the cancel handler, zero the data, free the other handlers
 CcTake(t) ==
     /\ pc[t] = "cc_take"
-    /\ src' = [src EXCEPT !.hnd = [ev |-> FALSE, cancel |-> IF Mut = "handler_not_taken" THEN @.cancel ELSE FALSE],
+    /\ src' = [src EXCEPT !.hnd = [ev |-> FALSE, cancel |-> IF Mut = "handler_not_taken" THEN @.cancel ELSE FALSE, reg |-> FALSE],
                           !.pending = 0]
     /\ IF src.hnd.cancel /\ "CANCELED" \in src.dqf THEN Go(t, "ch_start") ELSE Go(t, lv[t].tcont)
     /\ UNCHANGED <<lane, exe, kern, lv, cli, gh>>
@@ -497,10 +543,11 @@ ClResume == /\ pc[CL] = "idle" /\ lane.susp > 0
 \* dispatch_source_merge_data: if (dqf & CANCELED) return; add; wakeup(MAKE_DIRTY)
 ClMerge == /\ Kind = "data" /\ pc[CL] = "idle" /\ cli.ev < MaxEv
            /\ cli' = [cli EXCEPT !.ev = @ + 1]
-           /\ IF "CANCELED" \in src.dqf THEN UNCHANGED <<pc, lv>> ELSE Go(CL, "md_add") /\ lv' = lv
+           /\ IF "CANCELED" \in src.dqf THEN UNCHANGED <<pc, lv>> ELSE Set(CL, "md_add", [lv[CL] EXCEPT !.dcont = "idle"])
            /\ UNCHANGED <<src, lane, exe, kern, gh>>
-MdAdd == /\ pc[CL] = "md_add" /\ src' = [src EXCEPT !.pending = 1] /\ Wake(CL, {"dirty"}, "idle")
-         /\ UNCHANGED <<lane, exe, kern, cli, gh>>
+MdAdd(t) == /\ pc[t] = "md_add" /\ src' = [src EXCEPT !.pending = 1]
+            /\ Set(t, "wk_r1", [lv[t] EXCEPT !.wkf = {"dirty"}, !.wkret = lv[t].dcont, !.dcont = "idle"])
+            /\ UNCHANGED <<lane, exe, kern, cli, gh>>
 ClCitem == /\ AllowCitem /\ pc[CL] = "idle" /\ "citem" \notin cli.did
            /\ cli' = [cli EXCEPT !.did = @ \cup {"citem"}]
            /\ exe' = [exe EXCEPT !.tqList = Append(@, "citem")]
@@ -592,24 +639,24 @@ Lib(t) == WkRead1(t) \/ WkRead2(t) \/ WkRmw(t) \/ WkBcXor(t) \/ UUnreg(t) \/ UDu
           \/ Done(t) \/ InvLock(t) \/ IInst(t) \/ IInstall(t) \/ ISusp(t) \/ INdel(t) \/ IDqf(t) \/ IPend(t)
           \/ LXchg(t) \/ HStart(t) \/ HBody(t) \/ HEnd(t) \/ LDqf2(t) \/ LPend2(t) \/ ICancel(t) \/ IDqf3(t)
           \/ ICallout(t) \/ CcTake(t) \/ ChStart(t) \/ ChEnd(t) \/ CcDone(t) \/ IRearm(t) \/ IResume(t)
-          \/ InvFin(t) \/ InvXor(t) \/ MeDu(t) \/ MeWk(t)
+          \/ InvFin(t) \/ InvXor(t) \/ MeDu(t) \/ MeWk(t) \/ IRegh(t) \/ RTake(t) \/ RStart(t) \/ RBody(t) \/ REnd(t) \/ MdAdd(t)
 MgrStep == PopMgr \/ MFd \/ MFdDu \/ MFdPd \/ MHupDu \/ MHupPd \/ MHupDel \/ MSig \/ MTmr
 CawStep == CawRmw \/ CawLock \/ CawL1 \/ CawL2 \/ CawBc \/ CawAct \/ CawWait0 \/ CawChk \/ CawCas \/ CawFutex \/ CawRet
 Env == PeerWrite \/ PeerClose \/ Raise
-Client == ClActivate \/ ClSuspend \/ ClResume \/ ClMerge \/ MdAdd \/ ClCitem \/ CcCancel \/ CcCaw
+Client == ClActivate \/ ClSuspend \/ ClResume \/ ClMerge \/ ClCitem \/ CcCancel \/ CcCaw
 Next == (\E t \in Threads : Lib(t)) \/ (\E w \in Workers : PopTq(w)) \/ MgrStep \/ CawStep \/ CawSpurious \/ Env \/ Client
 Spec == Init /\ [][Next]_vars
 \* fairness: every library step, the executors, calls in progress; the client eventually activates and resumes
 FairSpec == /\ Spec
             /\ \A t \in Threads : WF_vars(Lib(t))
             /\ \A w \in Workers : WF_vars(PopTq(w))
-            /\ WF_vars(MgrStep) /\ WF_vars(CawStep) /\ WF_vars(MdAdd)
+            /\ WF_vars(MgrStep) /\ WF_vars(CawStep)
             /\ WF_vars(ClActivate) /\ WF_vars(ClResume)
 
 (* ================================ properties ================================ *)
 PCs == {"idle", "wk_r1", "wk_r2", "wk_rmw", "wk_bcxor", "u_unreg", "u_du", "u_final", "c_or",
         "act_rmw", "act_final", "act_inst", "act_res", "done", "inv_lock", "i_inst", "i_install", "i_susp",
-        "i_ndel", "i_dqf", "i_pend", "l_xchg", "h_start", "h_body", "h_end", "l_dqf2", "l_pend2", "i_cancel",
+        "i_regh", "r_take", "r_start", "r_body", "r_end", "i_ndel", "i_dqf", "i_pend", "l_xchg", "h_start", "h_body", "h_end", "l_dqf2", "l_pend2", "i_cancel",
         "i_dqf3", "i_callout", "cc_take", "ch_start", "ch_end", "cc_done", "i_rearm", "i_resume", "inv_fin",
         "inv_xor", "m_fd_du", "m_fd_pd", "m_hup_du", "m_hup_pd", "m_hup_del", "me_du", "me_wk", "md_add", "caw_rmw", "caw_lock",
         "caw_l1", "caw_l2", "caw_bc", "caw_act", "caw_wait0", "caw_chk", "caw_cas", "caw_futex", "caw_sleep", "caw_ret"}
@@ -620,10 +667,11 @@ TypeOK == /\ src.dqf \subseteq Flags /\ src.pending \in 0..1 /\ pc \in [Threads 
 C16 == gh.bad = ""
 HandlerExclusive == gh.hRunning <= 1
 CancelHandlerOnce == gh.chStarts <= 1
+RegistrationHandlerOnce == gh.regStarts <= 1
 \* structural
 WaiterImpliesCanceled == "CANCEL_WAITER" \in src.dqf => "CANCELED" \in src.dqf
 \* the drain lock is what makes the handler exclusive
-HandlerUnderLock == \A t \in Threads : pc[t] \in {"h_start", "h_body", "h_end", "ch_start", "ch_end"} /\ lv[t].onq # "caw" => lane.lock = t
+HandlerUnderLock == \A t \in Threads : pc[t] \in {"h_start", "h_body", "h_end", "ch_start", "ch_end", "r_start", "r_body", "r_end"} /\ lv[t].onq # "caw" => lane.lock = t
 \* dispatch_assert((old_state & dequeue_mask) == dequeue_mask) in drain_try_lock
 EnqAssert == \A t \in Threads : pc[t] = "inv_lock" => lane.enq = Own(t)
 \* convergence as a safety property: when nothing can move any more, a cancelled + activated + resumed source is final
